@@ -17,6 +17,11 @@
 -/
 import XMT.ChunkSeq
 import XMT.ChunkReadFrom
+import XMT.ChunkRoom
+import XMT.ChunkExact
+import XMT.ChunkPanic
+import XMT.ChunkPanicGrow
+import XMT.ChunkCensus
 namespace XMT.Props.C11
 open XMT XMT.Chunk XMT.Chunk.Chunk
 
@@ -198,5 +203,233 @@ example :
     let r := run (fun n => n) (empty 10) [.write [1,2,3,4,5], .write [6,7,8,9,10], .read 5,
       .write (List.replicate 100 9)]
     r.1.size = 10 ∧ r.1.unread = [6,7,8,9,10,9,9,9,9,9] := by decide
+
+/-! ## Extension (review item #12 of DESIGN B.5): exact clauses for Seek / positional writes, the exact
+acceptance count of Write, a panic outcome, and the method census.  Models and lemmas:
+XMT/ChunkExact.lean, XMT/ChunkRoom.lean, XMT/ChunkPanic.lean, XMT/ChunkPanicGrow.lean, XMT/ChunkCensus.lean.
+This section supersedes the three scope notes at the top of this file: (1) there is now a panic outcome
+(`no_op_panics`, `reservation_never_panics`, `neg_guard_needed`); (2) `seek` / positional writes have exact
+clauses (`step_refines_exact`); (3) `write_exact` is replaced by `write_count_exact` — and the remark
+"the limit counts the buffer, not the queue" is only half of the truth: it does so while the request fits
+the spare capacity; once `grow` slides or reallocates, the read bytes are reclaimed (`room`). -/
+
+/-- **Seek, exactly** (all three whence values, out-of-range targets): the retained bytes never change;
+with `aim = o` (whence 0), `o + cursor` (1), `o + len` (2) the cursor becomes `aim` and `aim` is
+returned iff `whence ≤ 2 ∧ 0 ≤ aim ≤ len`; a whence above 2 is the whence error, any other target
+`ErrInvalidIndex`, both with result 0 and nothing changed. -/
+theorem seek_exact (c : Chunk) (o : Int) (w : Nat) (h : c.Inv) :
+    SeekX c.view c.rpos o w (c.seek o w).2.1 (c.seek o w).2.2 (c.seek o w).1.view (c.seek o w).1.rpos :=
+  Chunk.seek_exact c o w h
+
+/-- **Seek then Read**: after a successful `Seek` to offset `t`, `Read(k)` returns the retained bytes
+`[t, t+k)` (as far as they exist) — bytes that were read before are readable again. -/
+theorem seek_then_read (c : Chunk) (o : Int) (w : Nat) (k : Nat) (h : c.Inv)
+    (hok : (c.seek o w).2.2 = none) :
+    ((c.seek o w).1.read k).2.1 = (c.view.drop (c.seek o w).2.1.toNat).take k := by
+  have hx := Chunk.seek_exact c o w h
+  rcases hs : c.seek o w with ⟨c1, t, e⟩
+  rw [hs] at hx hok
+  simp only at hx hok ⊢
+  obtain ⟨i1, _, _⟩ := seek_spec c o w h c1 t e hs
+  rcases hr : c1.read k with ⟨c2, g, e2⟩
+  obtain ⟨_, _, hg, _⟩ := read_spec c1 k i1 c2 g e2 hr
+  simp only
+  rw [hg]
+  show (c1.view.drop c1.rpos).take k = _
+  obtain ⟨hv, hcase⟩ := hx
+  rw [hv]
+  rcases hcase with ⟨_, _, _, _, ht, hrr⟩ | ⟨_, he, _⟩ | ⟨_, _, he, _⟩
+  · have : t.toNat = c1.rpos := by omega
+    rw [this]
+  · rw [hok] at he; cases he
+  · rw [hok] at he; cases he
+
+/-- **Positional writes, exactly** (WriteBoolPos, WriteUint8Pos, WriteUint16Pos, WriteUint32Pos,
+WriteUint64Pos; `b` = the big-endian image of the value, 1/2/4/8 bytes): the cursor and the length
+never change; the error is `ErrInvalidIndex` exactly for `p < 0`, `io.EOF` exactly when
+`p + |b| > len`, and otherwise there is no error and the retained bytes become
+`v[..p] ++ b ++ v[p+|b|..]`. (`ErrLimit` cannot be returned while `len ≤ Limit`.) -/
+theorem pos_write_exact (c : Chunk) (p : Int) (b : Bytes) (hb : 0 < b.length) (h : c.Inv) :
+    PosX c.view c.rpos p b (c.writePos p b).2 (c.writePos p b).1.view (c.writePos p b).1.rpos :=
+  Chunk.pos_exact c p b hb h
+
+/-- element-wise form of `pos_write_exact`: after a successful positional write every retained byte
+outside `[p, p+|b|)` is unchanged and the bytes inside are the image; the number of unread bytes is
+unchanged whatever the outcome. -/
+theorem pos_write_bytes (c : Chunk) (p : Int) (b : Bytes) (hb : 0 < b.length) (h : c.Inv) :
+    (c.writePos p b).1.unread.length = c.unread.length ∧
+    ((c.writePos p b).2 = none → ∀ i : Nat,
+      (c.writePos p b).1.view[i]? =
+        if i < p.toNat then c.view[i]? else if i < p.toNat + b.length then b[i - p.toNat]? else c.view[i]?) ∧
+    ((c.writePos p b).2 ≠ none → (c.writePos p b).1 = c) := by
+  have hx := Chunk.pos_exact c p b hb h
+  rcases hr : c.writePos p b with ⟨c1, e⟩
+  rw [hr] at hx
+  simp only at hx ⊢
+  obtain ⟨i1, _, h3, h4, _, h6⟩ := writePos_spec c p b hb h c1 e hr
+  obtain ⟨_, _, hx⟩ := hx
+  refine ⟨by rw [unread_length _ i1, unread_length _ h, h3, h4], fun hn i => ?_, h6⟩
+  rcases hx with ⟨_, hp, _, hv⟩ | ⟨_, he, _⟩ | ⟨_, _, he, _⟩
+  · rw [hv]; exact splice_get c.view b p.toNat hp i
+  · rw [hn] at he; cases he
+  · rw [hn] at he; cases he
+
+/-- **Every operation, exactly**: the refinement of `step_refines` with the exact clauses for `seek`
+and positional writes (`VStep` on retained bytes + cursor; `QStep` on the queue for all others). -/
+theorem step_refines_exact (c : Chunk) (op : Op) (hb : ∀ p b, op = .pos p b → 0 < b.length) (h : c.Inv) :
+    (step cf c op).1.Inv ∧ (step cf c op).1.limit = c.limit ∧
+    VStep c.view c.rpos op (step cf c op).2 (step cf c op).1.view (step cf c op).1.rpos := by
+  obtain ⟨h1, h2, h3⟩ := step_refines cf c op hb h
+  refine ⟨h1, h2, ?_⟩
+  cases op with
+  | seek o w => exact Chunk.seek_exact c o w h
+  | pos p b => exact Chunk.pos_exact c p b (hb p b rfl) h
+  | write b => exact h3
+  | read k => exact h3
+  | fixed b => exact h3
+  | bytes b => exact h3
+  | readFixed k => exact h3
+  | truncate n => exact h3
+  | grow n => exact h3
+  | reset => exact h3
+  | clear => exact h3
+
+/-- **Exact acceptance count of `Write`** (replaces the weak `write_exact`): for every state satisfying
+the invariant and sizes below `max int` / `MaxSlice` (`NoHuge`: no `ErrTooLarge`), `Write(b)` accepts
+all of `b` without a limit, and under a limit exactly `n = min |b| (room c |b|)` bytes, `room` being
+what the code leaves under `Limit` in that state (XMT/ChunkRoom.lean); the only error is `ErrLimit`,
+returned exactly when not everything was accepted or the request was `refused`. -/
+theorem write_count_exact (c : Chunk) (b : Bytes) (h : c.Inv) (hh : NoHuge c b.length)
+    (c' : Chunk) (n : Nat) (e : Option Err) (hw : write cf c b = (c', n, e)) :
+    c'.unread = c.unread ++ b.take n ∧
+    (c.limit ≤ 0 → n = b.length ∧ e = none) ∧
+    (c.limit > 0 → n = min b.length (room c b.length) ∧
+      (e = some .limit ↔ n < b.length ∨ refused c b.length) ∧ (e = none ∨ e = some .limit)) :=
+  ⟨(write_spec cf c b h c' n e hw).2.2.1, write_count cf c b h hh c' n e hw⟩
+
+/-- for a non-empty `b`: **`ErrLimit` iff fewer than `|b|` bytes were accepted.** -/
+theorem write_limit_iff_short (c : Chunk) (b : Bytes) (hb : 0 < b.length) (h : c.Inv)
+    (hh : NoHuge c b.length) (hl : c.limit > 0) (c' : Chunk) (n : Nat) (e : Option Err)
+    (hw : write cf c b = (c', n, e)) : e = some .limit ↔ n < b.length := by
+  obtain ⟨hn, hi, _⟩ := (write_count cf c b h hh c' n e hw).2 hl
+  rw [hi]
+  refine ⟨fun hor => ?_, Or.inl⟩
+  rcases hor with h1 | h1
+  · exact h1
+  · rw [hn, room_refused c b.length h h1]; omega
+
+/-- a request that fits under the limit counting the WHOLE buffer is accepted completely -/
+theorem write_fits_accepted (c : Chunk) (b : Bytes) (h : c.Inv) (hh : NoHuge c b.length)
+    (hl : c.limit > 0) (hfit : (c.len : Int) + b.length ≤ c.limit) (hb : 0 < b.length)
+    (c' : Chunk) (n : Nat) (e : Option Err) (hw : write cf c b = (c', n, e)) : n = b.length ∧ e = none := by
+  obtain ⟨hn, hi, hor⟩ := (write_count cf c b h hh c' n e hw).2 hl
+  have hroom : b.length ≤ room c b.length := by
+    have := h.rl; have := h.lc
+    have hc : c.cap = c.arr.length := rfl
+    unfold room roomReq
+    split
+    · omega
+    · split
+      · omega
+      · split
+        · omega
+        · split
+          · omega
+          · split
+            · omega
+            · omega
+  have hnn : n = b.length := by omega
+  refine ⟨hnn, ?_⟩
+  rcases hor with h0 | h0
+  · exact h0
+  · exfalso
+    rcases hi.1 h0 with h1 | h1
+    · omega
+    · have := room_refused c b.length h h1; omega
+
+/-- The plain "`ErrLimit` iff `n < |b|`" is FALSE for the empty write: on a full, unread chunk
+(`Limit` 5 holding 5 bytes) `Write(nil)` accepts 0 of 0 bytes and still reports `ErrLimit`
+(`grow`: `x >= c.Limit`).  Reproduced on the real code by the harness group `exact` (corpus case). -/
+theorem write_empty_on_full_reports_limit :
+    ((run (fun n => n) (empty 5) [.write [1,2,3,4,5]]).1.write (fun n => n) []).2 = (0, some .limit) := by
+  decide
+
+/-- **No operation panics**: from any state satisfying the invariant, every operation sequence (typed
+widths ≥ 1 byte) runs through the panic-outcome model `runP` (XMT/ChunkPanic.lean: every direct index /
+reslice of `c.buf` in the exported methods is a bounds check that may panic) without a panic, and
+yields exactly the results of the total model. -/
+theorem no_op_panics (c : Chunk) (h : c.Inv) (ops : List Op) (hops : ∀ op ∈ ops, OpOKP op) :
+    runP cf c ops = .ok (run cf c ops) := by
+  induction ops generalizing c with
+  | nil => rfl
+  | cons op ops ih =>
+    have ho := hops op List.mem_cons_self
+    have h1 := (step_refines cf c op ho.1 h).1
+    have := ih (step cf c op).1 h1 (fun o hm => hops o (List.mem_cons_of_mem _ hm))
+    simp only [runP, run, stepP_ok cf c op ho h, PRes.ok_bind, this]
+    rfl
+
+/-- **The reservation code does not panic either** (XMT/ChunkPanicGrow.lean: `reslice`, `grow` with its
+rewind / slide / reallocation reslices, `quickSlice`, `checkWriteSize`, and `WriteBytes` with its header
+indexing and roll-back, every index and reslice of the source as a bounds check): from a state
+satisfying the invariant each of them returns exactly what the total model returns, so `no_op_panics`
+loses nothing by reserving through the total functions; the reslice of `reslice` is in range in EVERY
+state (its own capacity test suffices). -/
+theorem reservation_never_panics (c : Chunk) (h : c.Inv) (n : Nat) (b : Bytes) :
+    growP cf c n = .ok (grow cf c n) ∧ quickSliceP cf c n = .ok (quickSlice cf c n) ∧
+    checkWriteSizeP cf c n = .ok (checkWriteSize cf c n) ∧ writeBytesP cf c b = .ok (writeBytes cf c b) ∧
+    (∀ (c' : Chunk) (k : Nat), resliceP c' k = .ok (reslice c' k)) :=
+  ⟨growP_ok cf c n h, quickSliceP_ok cf c n h, checkWriteSizeP_ok cf c n h, writeBytesP_ok cf c b h,
+    resliceP_ok⟩
+
+-- the guards of the reservation model can fail: a cursor beyond the length (outside `Inv`) makes the
+-- reallocation of `grow` panic at `trySlice(c.buf[c.rpos:], …)`
+example : (growP (fun n => n) { arr := [1], len := 1, rpos := 2, limit := 0, isNil := false } 1).isPanic = true := by
+  decide
+
+/-- the observers that index `c.buf` (Payload, String, MarshalStream's argument) do not panic either -/
+theorem observers_never_panic (c : Chunk) (h : c.Inv) :
+    (payloadP c).isPanic = false ∧ (stringP c).isPanic = false ∧ marshalArgP c = .ok c.unread :=
+  ⟨payloadP_ok c h, stringP_ok c, marshalArgP_ok c h⟩
+
+/-- **The negative-position guard (fix 6edbaf9) is needed and sufficient**: without it a positional
+write at `p = -1` on a non-empty chunk indexes `c.buf[-1]` and panics; with it the same call returns
+`ErrInvalidIndex` and leaves the chunk untouched; and with the guard NO positional write panics, in
+any state whatsoever (the position checks alone keep every index inside the slice). -/
+theorem neg_guard_needed :
+    (∃ c : Chunk, c.Inv ∧ (writePosP false c (-1) [7]).isPanic = true ∧
+      writePosP true c (-1) [7] = .ok (c, some .invalidIndex)) ∧
+    (∀ (c : Chunk) (p : Int) (b : Bytes), 0 < b.length → writePosP true c p b = .ok (c.writePos p b)) :=
+  ⟨⟨ofBytes [1, 2, 3], ⟨by decide, by decide, by intro h; exact absurd h (by decide), by decide⟩,
+    by decide, by decide⟩, fun c p b hb => writePosP_ok c p b hb⟩
+
+/-- **Method census** (regenerated from the source by go/parser on every run): every exported method
+of `*data.Chunk` in the files compiled here is either in the model's op table or in the explicit
+"not modelled, because …" list, and neither list names a method that does not exist — a new method
+cannot appear unnoticed.  The positional writers are exactly the five modelled ones and each of them
+starts with the `if p < 0 { return ErrInvalidIndex }` guard. -/
+theorem method_census :
+    Facts.c11_chunkMethods.all (fun m => Census.modelled.any (·.1 == m) || Census.notModelled.any (·.1 == m)) = true ∧
+    (Census.modelled ++ Census.notModelled).all (fun p => Facts.c11_chunkMethods.contains p.1) = true ∧
+    Facts.c11_posWriters = ["WriteBoolPos", "WriteUint16Pos", "WriteUint32Pos", "WriteUint64Pos", "WriteUint8Pos"] ∧
+    Facts.c11_posGuardNeg = 5 := by
+  decide
+
+/-! Non-vacuity of the extension. -/
+example : (ofBytes [1, 2, 3, 4]).Inv ∧ NoHuge (ofBytes [1, 2, 3, 4]) 3 := by
+  refine ⟨⟨by decide, by decide, by intro h; exact absurd h (by decide), by decide⟩, ?_, ?_⟩
+  · simp [Chunk.cap, ofBytes, maxInt]
+  · simp [ofBytes, Facts.maxSlice]
+-- seek: whence 2 (from the end), then a 2-byte positional write, then read: exact bytes
+example :
+    let r := run (fun n => n) (ofBytes [1, 2, 3, 4]) [.read 3, .seek (-3) 2, .pos 2 (be16 0xAABB), .read 9]
+    r.2.length = 4 ∧ r.1.view = [1, 2, 0xAA, 0xBB] := by decide
+-- room: limit 40, 40 written, 5 read: a 3-byte write is refused although 5 bytes were read …
+example : refused (run (fun n => max n 64) (empty 40) [.write (List.replicate 40 1), .read 5]).1 3 := by decide
+-- … while limit 100, w60 r50 w30 reclaims the read bytes (room 90 > Limit - len = 40)
+set_option maxRecDepth 8000 in
+example : room (run (fun n => max n 64) (empty 100) [.write (List.replicate 60 1), .read 50]).1 30 = 90 := by decide
+example : OpOKP (.pos 2 (be16 7)) :=
+  ⟨fun p b h => by cases h; decide, ⟨fun b h => Op.noConfusion h, fun k h => Op.noConfusion h⟩⟩
 
 end XMT.Props.C11
